@@ -180,25 +180,25 @@ def canon_spec(index, seed):
     else:
         rng = random.Random(splitmix64(seed, "C11/canon-gen", index))
         name, text = "gen", workload.gen_doc(rng, "en")
-    wiring = index % 3
-    parsers = [{"b": "ast", "g": 0}] if wiring != 2 else [{"b": "astd"}]
-    compilers = [{"g": 0}] if wiring == 0 else [{"g": 1}] if wiring == 1 else [{"g": None}]
+    wiring = index % 4
+    parsers = [{"b": "ast", "g": 0}] if wiring in (0, 1) else [{"b": "astd"}] if wiring == 2 else [{"b": "ast", "g": 0, "late": True}]
+    compilers = [{"g": 0}] if wiring == 0 else [{"g": 1}] if wiring == 1 else [{"g": None}] if wiring == 2 else [{"g": 0, "late": True}]
     ops = [{"op": "parse", "p": 0, "m": None, "text": text, "first": False, "src": "str"},
            {"op": "compile", "c": 0, "of": 0, "uri": "c.feature"},
            {"op": "parse", "p": 0, "m": None, "text": text, "first": False, "src": "str"},
            {"op": "compile", "c": 0, "of": 2, "uri": "c.feature"},
            {"op": "compile", "c": 0, "of": 0, "uri": "late.feature"}]
-    return {"scenario": "canon", "prop": "C11", "labels": [name, ["stream-wiring", "readme-wiring", "default-wiring"][wiring]], "oracles": ORACLES, "clause4": True,
+    return {"scenario": "canon", "prop": "C11", "labels": [name, ["stream-wiring", "readme-wiring", "default-wiring", "attribute-wiring"][wiring]], "oracles": ORACLES, "clause4": True,
             "cfg": {"flavour": "inc", "salt": 0}, "gens": 2, "fs": {}, "tasks": [{"parsers": parsers, "matchers": [], "compilers": compilers, "ops": ops}]}
 
 
 def _id_task(rng, shared_gens, files, tname, nops, small):
     parsers = []
     for _ in range(rng.randint(1, 2)):
-        parsers.append({"b": "ast", "g": shared_gens[rng.randrange(len(shared_gens))]} if rng.random() < 0.85 else {"b": "astd"})
+        parsers.append({"b": "ast", "g": shared_gens[rng.randrange(len(shared_gens))], "late": rng.random() < 0.15} if rng.random() < 0.85 else {"b": "astd"})
     compilers = []
     for _ in range(rng.randint(1, 2)):
-        compilers.append({"g": shared_gens[rng.randrange(len(shared_gens))]} if rng.random() < 0.85 else {"g": None})
+        compilers.append({"g": shared_gens[rng.randrange(len(shared_gens))], "late": rng.random() < 0.15} if rng.random() < 0.85 else {"g": None})
     streams = [{"o": ALL_OPTS[rng.randrange(8)] if rng.random() < 0.3 else [True, True, True]} for _ in range(rng.randint(0, 2))]
     matchers = [rng.choice([None, {"c": "tm", "d": "en"}, {"c": "tm", "d": "fr"}])]
     ops, labels = [], []
